@@ -131,7 +131,8 @@ impl<'a> From<&'a Url> for Origin<'a> {
 impl Display for Origin<'_> {
     fn fmt(&self, f: &mut std::fmt::Formatter<'_>) -> std::fmt::Result {
         match self {
-            Origin::Web(url) => write!(f, "{}", url.as_str().trim_end_matches('/')),
+            // the origin only: a caller's URL may also carry a path, a query, a fragment or credentials
+            Origin::Web(url) => write!(f, "{}", url.origin().ascii_serialization()),
             #[cfg(feature = "android-asset-validation")]
             Origin::Android(target_link) => {
                 write!(
